@@ -10,6 +10,7 @@
 import IocProofs.Lemmas.Placeholder
 import IocProofs.Lemmas.PlaceholderLayers
 import IocProofs.Lemmas.SemStages
+import IocProofs.Lemmas.TagRound
 namespace Ioc.C16
 open Ioc Ioc.Placeholder
 
@@ -403,5 +404,34 @@ theorem C16_repl_is_quoteDecision (cfg : Cfg) (content : Bytes) (v : Option CVal
         cases normDefault d <;> simp [Except.map]
 
 end code
+
+/-! ### from the tag TEXT (seventh round): the arguments are cut off OUTSIDE the placeholders -/
+
+/-- A tag text `v,name=items,…` whose value part `v` is bracket-balanced with its commas inside brackets only - in
+    particular every comma inside a `${…}` / `#{…}` block, nested to any depth, also one that follows an inner `}` - reaches
+    the placeholder processor with exactly `v` as its TagStr: the text is processed as `v` alone is. -/
+theorem C16_arguments_cut_outside (cfg : Cfg) (v : Bytes) (as : List (Bytes × List Bytes))
+    (hv : Ioc.Tag.WFpre Ioc.Tag.cComma Ioc.Tag.isLB Ioc.Tag.isRB v 0 = true) (has : ∀ a ∈ as, Ioc.Tag.WFArg a) :
+    processText cfg (Ioc.Tag.render v as) = some (v, process cfg v) := by
+  simp [processText, Ioc.Tag.parse?_render v as hv has]
+
+/-- … and the parser never panics on the way: every tag text reaches the processor. -/
+theorem C16_text_total (cfg : Cfg) (text : Bytes) : ∃ v, processText cfg text = some (v, process cfg v) := by
+  obtain ⟨v, a, h⟩ := Ioc.Tag.parse?_total text
+  exact ⟨v, by simp [processText, h]⟩
+
+def motdCfg : Cfg := [(ofString "lang", .str (ofString "de")),
+  (ofString "motd", .map [(ofString "de", .str (ofString "Hallo, Fremder"))]),
+  (ofString "tier", .str (ofString "gold")), (ofString "quota", .map [(ofString "gold", .num (ofString "500"))])]
+
+example : Ioc.Tag.WFpre Ioc.Tag.cComma Ioc.Tag.isLB Ioc.Tag.isRB (ofString "${motd.${lang}:Welcome, stranger}") 0 = true := by decide
+example : Ioc.Tag.render (ofString "${motd.${lang}:Welcome, stranger}") [(ofString "required", [[]])]
+    = ofString "${motd.${lang}:Welcome, stranger},required=" := by decide
+example : processText motdCfg (ofString "${motd.${lang}:Welcome, stranger},required") =
+    some (ofString "${motd.${lang}:Welcome, stranger}", .value (ofString "Hallo, Fremder")) := by decide +kernel
+example : processText motdCfg (ofString "${motd.${nolang:fr}:Welcome, stranger},required=true,validate=required") =
+    some (ofString "${motd.${nolang:fr}:Welcome, stranger}", .value (ofString "Welcome, stranger")) := by decide +kernel
+example : processText motdCfg (ofString "#{max(${low:1},${quota.${tier}:100})},validate=min=1") =
+    some (ofString "#{max(${low:1},${quota.${tier}:100})}", .value (ofString "#{max(1,500)}")) := by decide +kernel
 
 end Ioc.C16
